@@ -387,6 +387,10 @@ func c02RunSet(rep *verifkit.Report, rng *rand.Rand, idx, confsPerSet, queriesPe
 			}
 			src := []string{"127.0.0.1", "127.0.0.2"}[rng.Intn(2)]
 			ans := c02GenAnswer(rng, qname, qtype)
+			env.upRcode = dns.RcodeSuccess
+			if rng.Intn(6) == 0 && len(ans) > 0 {
+				env.upRcode = dns.RcodeNameError
+			}
 			if conf.CacheSize > 0 {
 				// With the response cache on every question is unique per
 				// server (a repeated question would be answered with the first
@@ -412,13 +416,19 @@ func c02RunSet(rep *verifkit.Report, rng *rand.Rand, idx, confsPerSet, queriesPe
 func c02One(rep *verifkit.Report, vs *vkServer, env *c01Env, texts []string, qname string, qtype uint16,
 	src string, tcp bool, ans []dns.RR, sample bool, repeat bool) {
 	conf := env.conf
+	// Mostly NOERROR; NXDOMAIN with a non-empty answer section models a
+	// dangling alias (CNAME chain whose end does not exist).
+	upRcode := env.upRcode
+	if upRcode != dns.RcodeSuccess {
+		rep.Class("upstream_rcode_" + dns.RcodeToString[upRcode] + "_with_answer_records")
+	}
 	vs.Up.Script = func(_ *dns.Msg, _ int) ([]dns.RR, int) {
 		out := make([]dns.RR, len(ans))
 		for i, rr := range ans {
 			out[i] = dns.Copy(rr)
 		}
 
-		return out, dns.RcodeSuccess
+		return out, upRcode
 	}
 	reqV := c01Decide(env, qname, qtype, src)
 	vs.Up.take()
@@ -432,7 +442,7 @@ func c02One(rep *verifkit.Report, vs *vkServer, env *c01Env, texts []string, qna
 		w := map[string]any{
 			"rules": texts, "config": view, "aaaa_disabled": conf.AAAADisabled, "cache_size": conf.CacheSize, "repeated_question": repeat,
 			"query":           map[string]any{"name": qname, "qtype": dns.TypeToString[qtype], "src": src, "tcp": tcp},
-			"upstream_answer": vkRRStrings(ans), "request_stage_model": reqV, "upstream_calls": calls,
+			"upstream_answer": vkRRStrings(ans), "upstream_rcode": dns.RcodeToString[upRcode], "request_stage_model": reqV, "upstream_calls": calls,
 		}
 		if resp != nil {
 			w["reply"] = resp.String()
@@ -534,7 +544,7 @@ func c02One(rep *verifkit.Report, vs *vkServer, env *c01Env, texts []string, qna
 		if !applicable && conf.AAAADisabled {
 			rep.Class("unchanged:not_applicable_with_aaaa_disabled")
 		}
-		if !ok || resp.Rcode != dns.RcodeSuccess {
+		if !ok || resp.Rcode != upRcode {
 			rep.Violate("unchanged:answer-altered", "an upstream answer that must be delivered unchanged was altered", witness(map[string]any{"log_entry": entry}))
 
 			return
